@@ -22,6 +22,7 @@ type c04Result struct {
 	Nil bool        `json:"nil,omitempty"`
 	Val *resp.Value `json:"val,omitempty"`
 	Err *resp.Bin   `json:"err,omitempty"`
+	Odd string      `json:"odd,omitempty"` // see doubles.Result.Odd
 }
 
 type c04Case struct {
@@ -56,7 +57,7 @@ func evalC04(c c04Case) *Failure {
 			if cl.Frames < len(c.Stream) && next < len(c.Results) {
 				r := c.Results[next]
 				next++
-				res := doubles.Result{Nil: r.Nil, Val: r.Val}
+				res := doubles.Result{Nil: r.Nil, Val: r.Val, Odd: r.Odd}
 				if r.Err != nil {
 					res.Err = string(*r.Err)
 					if res.Err == "" {
@@ -315,7 +316,11 @@ func genC04Case(rt *rapid.T, avoid func(string) bool) (c04Case, map[string]bool)
 		k := rapid.IntRange(0, 6).Draw(rt, "nresults")
 		for i := 0; i < k; i++ {
 			var r c04Result
-			switch rapid.IntRange(0, 5).Draw(rt, "rescls") {
+			switch rapid.IntRange(0, 6).Draw(rt, "rescls") {
+			case 6:
+				r.Odd = rapid.SampledFrom([]string{"nil-array", "no-type", "unknown-type", "nil-in-array"}).Draw(rt, "odd")
+				labels["nil-result"] = true
+				labels["odd-message"] = true
 			case 0:
 				r.Nil = true
 				labels["nil-result"] = true
